@@ -61,7 +61,7 @@ _CMPFN = {sym: fn for sym, fn in _CMP.values()}
 NEGATE = {"==": "!=", "!=": "==", "<": ">=", ">=": "<", ">": "<=", "<=": ">", "in": "not in", "not in": "in", "is": "is not", "is not": "is"}
 
 PURE_BUILTINS = {"len": len, "int": int, "str": str, "bin": bin, "chr": chr, "ord": ord, "bytes": bytes, "abs": abs,
-                 "min": min, "max": max, "bool": bool, "tuple": tuple, "float": float, "range": range, "isinstance": None}
+                 "min": min, "max": max, "bool": bool, "tuple": tuple, "float": float, "range": range, "slice": slice, "isinstance": None}
 PURE_METHODS = {"to_bytes", "count", "strip", "split", "rsplit", "startswith", "endswith", "upper", "lower", "hex",
                 "ljust", "rjust", "zfill", "bit_length", "decode", "encode", "join", "replace", "find", "index", "get",
                 "keys", "values", "items"}
@@ -254,6 +254,7 @@ class SymEval:
         self._alts: dict = {}  # gated constant returned by an inlined helper -> its alternatives ((extra path literals, value), ...)
         self._try_depth: dict = {}  # try id -> inline depth of the frame the try statement belongs to
         self._frame_envs: list = []  # environments of the calling frames while a helper is inlined
+        self._head_mark: dict = {}  # loop id -> (number of effects recorded when the current iteration's body was entered, loop node, inline depth)
         self._tail_ends: dict = {}  # loop id -> per-path states at the statements from which control falls off the end of the loop body
         self._tail_stack: list = []  # (loop id, ids of tail-position leaf statements, ids of tail-position ifs without else)
 
@@ -297,6 +298,10 @@ class SymEval:
     # ------------------------------------------------------------------ statements
     def block(self, stmts, st: State) -> State:
         stmts = _rotate_primed_loops(stmts)
+        while len(stmts) > 1 and isinstance(stmts[0], ast.Expr) and isinstance(stmts[0].value, ast.Constant):
+            stmts = stmts[1:]  # docstring
+        if stmts and isinstance(stmts[0], ast.While) and self._loops and self._head_mark.get(self._loops[-1], (None,))[0] == len(self.effects):
+            stmts = self._flatten_discard_loop(stmts)
         for s in stmts:
             if st.dead:
                 break
@@ -304,6 +309,38 @@ class SymEval:
         if stmts and not st.dead and self._tail_stack and self._loops and self._tail_stack[-1][0] == self._loops[-1] and id(stmts[-1]) in self._tail_stack[-1][1]:
             self._tail_end(st)
         return st
+
+    def _flatten_discard_loop(self, stmts):
+        """At the very start of an iteration of an enclosing loop (nothing has happened in it yet):
+              while True: S...; if c: break          (skip items until one passes the test)
+        is    S...; if not c: continue               of the enclosing loop
+        provided the enclosing loop's test is not changed by S (it is re-evaluated by the continue) - the shape the iteration rules follow."""
+        w = stmts[0]
+        lid = self._loops[-1]
+        _, outer, depth = self._head_mark[lid]
+        if not (isinstance(w.test, ast.Constant) and w.test.value is True and not w.orelse and w.body):
+            return stmts
+        last = w.body[-1]
+        if not (isinstance(last, ast.If) and not last.orelse and len(last.body) == 1 and isinstance(last.body[0], ast.Break)):
+            return stmts
+        head = w.body[:-1]
+        if _has(head, (ast.Break, ast.Continue)) or any(isinstance(n, (ast.Return, ast.Raise, ast.Yield, ast.YieldFrom)) for x in head for n in ast.walk(x)):
+            return stmts
+        if not isinstance(outer, ast.While):
+            return stmts
+        test_names = {n.id for n in ast.walk(outer.test) if isinstance(n, ast.Name)}
+        test_fields = {n.attr for n in ast.walk(outer.test) if isinstance(n, ast.Attribute)}
+        same_frame = depth == len(self._inline_stack)
+        if (same_frame and (_assigned_names(w.body) & test_names)) or (_assigned_fields(w.body, self.selfname) & test_fields) or (test_fields and _calls_self_methods(w.body, self.selfname) and False):
+            return stmts
+        if any(isinstance(n, ast.Call) for n in ast.walk(outer.test)):
+            return stmts
+        cont = ast.If(test=ast.UnaryOp(op=ast.Not(), operand=last.test), body=[ast.Continue()], orelse=[])
+        ast.copy_location(cont, last)
+        ast.copy_location(cont.test, last.test)
+        ast.copy_location(cont.body[0], last.body[0])
+        ast.fix_missing_locations(cont)
+        return list(head) + [cont] + list(stmts[1:])
 
     def _tail_end(self, st: State):
         snap = st.copy()
@@ -598,6 +635,7 @@ class SymEval:
         info["pre"] = pre.env
         self._loops.append(lid)
         self._tail_stack.append((lid,) + _tail_positions(s.body))
+        self._head_mark[lid] = (len(self.effects), getattr(s, "_sa_from_while", s), len(self._inline_stack))
         if isinstance(s, ast.While):
             c = self.expr(s.test, st)
             info["test"] = c
@@ -629,7 +667,19 @@ class SymEval:
             out.env["self.*"] = ("out", lid)
         if isinstance(s, ast.While) and self.truth(info["test"]) is None and not _has_break(s.body):
             out.assume(info["test"], False)
-        if s.orelse:
+        if s.orelse and _has_break(s.body):
+            # the else clause runs only when the loop ends because its test fails; a break skips it
+            normal = State(dict(out.env), out.dnf, None)
+            if isinstance(s, ast.While) and self.truth(info["test"]) is None:
+                normal.assume(info["test"], False)
+            after_else = self.block(s.orelse, normal)
+            brk_dnf = ()
+            for k_, st_ in info["ends"]:
+                if k_ == "break":
+                    brk_dnf = dnf_or(brk_dnf, st_.dnf) if brk_dnf else st_.dnf
+            broken = State(dict(out.env), brk_dnf or pre.dnf, None)
+            out = broken if after_else.dead else self.merge(("left-by-break", lid), broken, after_else, pre.dnf)
+        elif s.orelse:
             out = self.block(s.orelse, out)
         # a loop whose body always returns/raises on every path and `while True` without break never falls through
         if isinstance(s, ast.While) and self.truth(info["test"]) is True and not _has_break(s.body):
@@ -778,7 +828,10 @@ class SymEval:
             hi = self.expr(sl.upper, st) if sl.upper else const(None)
             step = self.expr(sl.step, st) if sl.step else const(None)
             return ("slicespec", lo, hi, step)
-        return self.expr(sl, st)
+        v = self.expr(sl, st)
+        if is_const(v) and isinstance(v[1], slice):
+            return ("slicespec", const(v[1].start), const(v[1].stop), const(v[1].step))  # x[SLICE] with a constant slice object is x[a:b:c]
+        return v
 
     def expr(self, e, st: State):
         return self._ov(self._expr(e, st))
@@ -1162,7 +1215,7 @@ def _rotate_primed_loops(stmts):
     while i < len(stmts):
         p_ = stmts[i]
         w = stmts[i + 1] if i + 1 < len(stmts) else None
-        if (isinstance(p_, ast.Assign) and isinstance(w, ast.While) and not w.orelse and len(w.body) >= 2 and isinstance(w.body[-1], ast.Assign)
+        if (isinstance(p_, ast.Assign) and isinstance(w, ast.While) and not w.orelse and len(w.body) >= 1 and isinstance(w.body[-1], ast.Assign)
                 and ast.dump(p_) == ast.dump(w.body[-1]) and len(p_.targets) == 1 and isinstance(p_.targets[0], ast.Name)
                 and any(isinstance(n, ast.Name) and n.id == p_.targets[0].id for n in ast.walk(w.test))
                 and not _has(w.body[:-1], (ast.Continue,)) and p_.targets[0].id not in _assigned_names(w.body[:-1])
